@@ -49,7 +49,16 @@ def _get_positions_from_all_adjacent_unit_cells(structure, distance):
     uc_offsets[np.where(np.all(uc_offsets == (0,0,0), axis=1))[0][0]] = uc_offsets[0]
     uc_offsets[0] = (0.0, 0.0, 0.0)
 
-    all_positions = [structure.positions + uc_offset for uc_offset in uc_offsets]
+    # atoms stored outside the unit cell (unwrapped trajectories, data files that do not wrap) are searched through their
+    # image inside the cell: a translation by INTEGER lattice vectors, so atoms already inside keep their coordinates
+    # bit for bit, indices do not change and every listed position is still a stored position plus a lattice vector
+    # (the 1e-9: an atom sitting on a cell face, a fractional coordinate of -1e-17 say, counts as inside and stays put)
+    home_positions = structure.positions
+    if len(home_positions) > 0:
+        cells_away = np.floor(home_positions.dot(np.linalg.inv(cell)) + 1e-9)
+        home_positions = home_positions - cells_away.dot(cell)
+
+    all_positions = [home_positions + uc_offset for uc_offset in uc_offsets]
     all_positions = np.array([x for y in all_positions for x in y])
 
     s_types = list(structure.elements) * len(uc_offsets)
